@@ -2,7 +2,7 @@ from common import Ctx, RULES, standard_unit_leg
 
 PID = "C15"
 COQ_FILES = ["Model/Base.v", "Model/Mem.v", "Gen/Regs.v", "Spec/X86Dwarf.v", "Model/Regs.v", "Proofs/MemProofs.v",
-             "Proofs/RegsProofs.v", "Properties/C15.v"]
+             "Proofs/RegsProofs.v", "Gen/Mem.v", "Ties/MemTie.v", "Properties/C15.v"]
 RULES[PID] = ("e2e leg: a debuggee maps 8 pages and punches holes (munmap), PROT_NONE and read-only pages; seeded (address, length, data) triples, "
               "80% within +-28 bytes of a page edge, lengths 0..40, through Debugger::read_memory and the DAP write_bytes helper; before/after windows "
               "are taken from /proc/<pid>/mem byte by byte (None = unmapped) and the case is decided inside Coq against the model (exact) and the "
